@@ -323,7 +323,7 @@ def search(progs):
 
 def hint_k(progs):
     rr = RuleResult('HINT-K', 'insert_hint is loop-free and on every path that reaches neither a binary search nor the un-hinted insert it makes at '
-                              'most 4 direct comparator calls')
+                              'most 8 direct comparator calls (amc itself needs at most 4; the property only asks for a constant)')
     for prog in progs:
         cmps = compare_types(prog)
         for f in prog.amc_functions():
@@ -377,7 +377,7 @@ def hint_k(progs):
             worst = max([c for c, s, d in ps if not s] or [0])
             rr.instance('%s' % f['key'], {'function': f['pname'][:150], 'paths': len(ps), 'search_free_paths': sum(1 for c, s, d in ps if not s),
                                           'max_comparator_calls_on_search_free_path': worst, 'loops': len(loops)})
-            if loops or worst > 4:
+            if loops or worst > 8:
                 rr.add(Finding('HINT-K', '%s' % f['key'], f['loc'],
                                'hinted insertion is not O(1) on its search-free paths: %d comparator calls, %d loops' % (worst, len(loops)),
                                where=f['pname'], unit=prog.uname))
